@@ -14,8 +14,25 @@ func init() {
 				ThoroughParams: map[string]int{"secrets": 3, "versions": 4},
 				ExpectReach:    []string{"end-error", "end-first", "end-dedupe", "end-new-version"},
 				Desc:           "one DB.Put step from an arbitrary valid kv state, against the map model"},
+			c02h("verifHarnessC02Activate", []string{"end-error", "end-ok"}, "one DB.Activate step"),
+			c02h("verifHarnessC02DeleteVersion", []string{"end-error", "end-ok"}, "one DB.DeleteVersion step"),
+			c02h("verifHarnessC02Delete", []string{"end-error", "end-ok"}, "one DB.Delete step"),
+			c02h("verifHarnessC02Get", []string{"end-absent", "end-present"}, "DB.Get returns the active number and bytes, copy-out"),
+			c02h("verifHarnessC02GetVersion", []string{"end-absent", "end-present"}, "DB.GetVersion"),
+			c02h("verifHarnessC02Info", []string{"end-absent", "end-present"}, "DB.Info lists exactly the existing versions, sorted"),
+			c02hp("verifHarnessC02List", []string{"end"}, "DB.List as superuser lists every secret, sorted by name", 2, 2, 2, 3),
 		},
 		Bounds: map[string]string{"secrets_per_state": "2 (quick) / 3 (thorough)", "versions_per_secret": "3 / 4",
 			"names,values": "SMT strings of any length", "version numbers": "any 32-bit value, LatestVersion < 2^32-1"},
 	})
+}
+
+func c02h(name string, reach []string, desc string) *HarnessSpec {
+	return &HarnessSpec{Name: name, Pkg: "db", Stubs: dbStubs, Params: map[string]int{"secrets": 2, "versions": 3},
+		ThoroughParams: map[string]int{"secrets": 3, "versions": 4}, ExpectReach: reach, Desc: desc}
+}
+
+func c02hp(name string, reach []string, desc string, qs, qv, ts, tv int) *HarnessSpec {
+	return &HarnessSpec{Name: name, Pkg: "db", Stubs: dbStubs, Params: map[string]int{"secrets": qs, "versions": qv},
+		ThoroughParams: map[string]int{"secrets": ts, "versions": tv}, ExpectReach: reach, Desc: desc}
 }
